@@ -42,6 +42,15 @@ class FGen:
         self.nvar += 1
         return f'{p}{self.nvar}'
 
+    def zero(self):
+        """$zero of a fold with a sequence-valued accumulator: empty, one item, or SEVERAL items"""
+        k = self.k(9)
+        if k < 2:
+            return ['empty']
+        if k < 4:
+            return self.lit_int()
+        return ['seq', *[self.lit_int() for _ in range(2 + self.draw(_upto(2)))]]
+
     def range_expr(self, nm, d, sc):
         """the range expression of `for $nm in ...`: $nm must not occur in it at all, not even as a parameter
         (elementpath rejects that statically: known finding C08/range-mentions-own-name)"""
@@ -102,6 +111,15 @@ class FGen:
             if self.v == '31' and self.k(2) == 0:
                 return ['call', 'apply', [f3, ['array', args]]]
             return ['dyn', f3, args]
+        if k < 66:      # multi-item $zero, the callback reduces it to one integer
+            a = self.fresh('p')
+            b = self.fresh('p', (a,))
+            fn = _sf(self.draw, ['fold-left', 'fold-right'])
+            acc, it = (a, b) if fn == 'fold-left' else (b, a)
+            body = ['arith', '+', ['arith', '*', ['call', 'count', [['var', acc]]], ['int', 10]],
+                    ['arith', '+', ['call', 'sum', [['var', acc]]], ['var', it]]]
+            # sum(): exactly one integer also when the input is empty and the fold returns $zero itself
+            return ['call', 'sum', [['call', fn, [self.seq(d + 1, sc), self.zero(), ['inline', [a, b], body]]]]]
         if k < 72:
             fn = _sf(self.draw, ['fold-left', 'fold-right'])
             return ['call', fn, [self.seq(d + 1, sc), self.int_(d + 1, sc), self.fun('f2', d + 1, sc)]]
@@ -153,10 +171,10 @@ class FGen:
             if kk == 1:
                 acc = _sf(self.draw, [['seq', B, A], ['seq', A, B], ['seq', A, B, B],
                                       ['if', ['vcmp', 'gt', B, ['int', 2]], ['seq', A, B], A]])
-                return ['call', 'fold-left', [self.seq(d + 1, sc), _sf(self.draw, [['empty'], ['int', 0]]), ['inline', [a, b], acc]]]
+                return ['call', 'fold-left', [self.seq(d + 1, sc), self.zero(), ['inline', [a, b], acc]]]
             if kk == 2:
                 acc = _sf(self.draw, [['seq', B, A], ['seq', A, B], ['if', ['vcmp', 'lt', A, ['int', 3]], ['seq', A, B], B]])
-                return ['call', 'fold-right', [self.seq(d + 1, sc), ['empty'], ['inline', [a, b], acc]]]
+                return ['call', 'fold-right', [self.seq(d + 1, sc), self.zero(), ['inline', [a, b], acc]]]
             if kk == 3:
                 return ['call', 'for-each-pair', [self.seq(d + 1, sc), self.seq(d + 1, sc), ['inline', [a, b], ['seq', B, A]]]]
             if kk == 4:     # named partial with two placeholders, called with both arguments
@@ -403,7 +421,8 @@ def closure_program(draw, version='31'):
     g = FGen(draw, version, max_depth=2)
     pat = _sf(draw, ['for-list', 'for-list', 'for-map', 'curry', 'for-partial', 'static-partial', 'nested-for', 'let-in-for',
                      'reentrant', 'reentrant', 'hof-closures', 'compose-fold', 'focus-ref',
-                     'empty-closure', 'empty-closure', 'empty-closure', 'focus-partial', 'focus-partial', 'focus-partial'])
+                     'empty-closure', 'empty-closure', 'empty-closure', 'focus-partial', 'focus-partial', 'focus-partial']
+             + (['callable'] * 5 if version == '31' else []))
     if pat == 'focus-ref':
         # references to context-dependent functions capture the focus of each evaluation
         name = _sf(draw, ['string', 'position', 'last', 'string'])
@@ -415,6 +434,8 @@ def closure_program(draw, version='31'):
             return {'pattern': pat, 'ast': ['map', fs, ['dyn', ['ctx'], []]]}
         calls = [['dyn', ['filter', ['var', 'fs'], ['int', 1 + draw(_upto(2))]], []] for _ in range(2 + draw(_upto(2)))]
         return {'pattern': pat, 'ast': ['let', [['fs', fs]], ['seq', *calls]]}
+    if pat == 'callable':
+        return {'pattern': pat, 'ast': callable_program(draw, g)}
     if pat == 'empty-closure':
         return {'pattern': pat, 'ast': empty_closure_program(draw, g)}
     if pat == 'focus-partial':
@@ -494,6 +515,60 @@ def closure_program(draw, version='31'):
     f = ['inline', [x], dep(g.int_(1, ((i, 'int'), (x, 'int'))))]
     return {'pattern': pat, 'ast': ['for', [[i, src]], ['let', [['f', f]], ['seq', ['dyn', ['var', 'f'], [g.lit_int()]],
                                                                             ['dyn', ['var', 'f'], [['var', i]]]]]]}
+
+
+def callable_program(draw, g):
+    """maps and arrays used as function items of arity 1 wherever a function item can stand (XPath 3.1)"""
+    li = g.lit_int
+    arr = ['array', [li(), li(), li(), ['seq', li(), li()]]]
+    mp = ['mapc', [[['str', 'k'], li()], [['str', 'j'], ['seq', li(), li()]], [['int', 2], li()], [['int', 1], li()]]]
+    binds = [['a', arr], ['m', mp]]
+    A, M, F = ['var', 'a'], ['var', 'm'], ['var', 'f']
+    c = lambda name, *args: ['call', name, list(args)]     # noqa: E731
+    idx = ['int', 1 + draw(_upto(3))]
+    key = _sf(draw, [['str', 'k'], ['str', 'j'], ['int', 2], ['int', 1], ['str', 'zz'], ['int', 7]])
+    inl = ['inline', ['x'], ['arith', '*', ['var', 'x'], li()]]
+    part = ['dyn', ['inline', ['p', 'q'], ['arith', '-', ['var', 'p'], ['var', 'q']]], [['?'], li()]]
+    mixed = _sf(draw, [['seq', A, M, inl, ['ref', 'abs', 1], part], ['seq', M, A], ['seq', inl, A, part, M], ['seq', A, A, M]])
+    k = draw(_upto(13))
+    if k == 0:
+        body = ['seq', c('apply', A, ['array', [idx]]), ['dyn', A, [idx]], c('apply', M, ['array', [key]]), ['dyn', M, [key]]]
+    elif k == 1:
+        body = c('for-each', ['seq', *[['int', 1 + draw(_upto(3))] for _ in range(2 + draw(_upto(2)))]], A)
+    elif k == 2:
+        body = c('for-each', ['seq', ['str', 'k'], ['str', 'zz'], ['int', 2], ['str', 'j']], M)
+    elif k == 3:
+        body = c('for-each', mixed, ['inline', ['f'], c('apply', F, ['array', [['int', 2]]])])
+    elif k == 4:
+        body = c('for-each', mixed, ['inline', ['f'], ['dyn', F, [['int', 2]]]])
+    elif k == 5:
+        fn = _sf(draw, ['fold-left', 'fold-right'])
+        step = (['inline', ['acc', 'f'], ['seq', ['var', 'acc'], c('apply', F, ['array', [['int', 1]]])]] if fn == 'fold-left'
+                else ['inline', ['f', 'acc'], ['seq', ['dyn', F, [['int', 1]]], ['var', 'acc']]])
+        body = c(fn, mixed, g.zero(), step)
+    elif k == 6:
+        body = ['seq', ['dyn', ['dyn', A, [['?']]], [idx]], ['dyn', ['dyn', M, [['?']]], [key]],
+                ['let', [['p', ['dyn', M, [['?']]]]], ['seq', ['dyn', ['var', 'p'], [['str', 'j']]], ['dyn', ['var', 'p'], [['str', 'k']]]]]]
+    elif k == 7:
+        body = ['seq', ['arrow', idx, A], ['arrow', key, M], ['arrow', ['int', 2], ['dyn', A, [['?']]]]]
+    elif k == 8:
+        body = c('for-each', mixed, ['ref', 'function-arity', 1])
+    elif k == 9:
+        body = c('sort', ['seq', ['int', 3], ['int', 1], ['int', 2], ['int', 1]], ['empty'], _sf(draw, [A, ['mapc', [[['int', 1], li()], [['int', 2], li()], [['int', 3], li()]]]]))
+    elif k == 10:
+        mb = ['mapc', [[['int', i], ['bool', bool(draw(_upto(1)))]] for i in (1, 2, 3, 4)]]
+        body = c('filter', ['seq', ['int', 1], ['int', 2], ['int', 3], ['int', 4], ['int', 2]], mb)
+    elif k == 11:    # the callee receives whatever function item and applies it twice
+        twice = ['inline', ['f', 'x'], ['seq', c('apply', F, ['array', [['var', 'x']]]), ['dyn', F, [['var', 'x']]]]]
+        body = ['let', [['t', twice]], ['seq', ['dyn', ['var', 't'], [A, idx]], ['dyn', ['var', 't'], [M, key]], ['dyn', ['var', 't'], [inl, li()]]]]
+    elif k == 12:    # array members that are function items
+        fa = ['array', [inl, ['ref', 'abs', 1], A]]
+        body = ['seq', ['dyn', ['dyn', fa, [['int', 1]]], [li()]], ['dyn', ['dyn', fa, [['int', 3]]], [idx]],
+                c('apply', ['dyn', fa, [['int', 2]]], ['array', [li()]])]
+    else:
+        body = c('for-each-pair', mixed, ['seq', ['int', 1], ['int', 2], ['int', 2], ['int', 1], ['int', 2]],
+                 ['inline', ['f', 'x'], ['dyn', F, [['var', 'x']]]])
+    return ['let', binds, body]
 
 
 def empty_closure_program(draw, g):
@@ -660,7 +735,8 @@ def reentrant_program(draw, g):
 # --------------------------------------------------------------------------
 # definitional expansions (both sides evaluated by elementpath)
 # --------------------------------------------------------------------------
-EXPANSIONS_30 = ['for-each', 'filter', 'fold-left', 'fold-right', 'for-each-pair', 'partial', 'named-ref', 'fold-left-rec']
+EXPANSIONS_30 = ['for-each', 'filter', 'fold-left', 'fold-right', 'for-each-pair', 'partial', 'named-ref', 'fold-left-rec',
+                 'fold-left-seq', 'fold-right-seq']
 EXPANSIONS_31 = EXPANSIONS_30 + ['apply', 'arrow']
 
 
@@ -686,6 +762,11 @@ def expansion_case(draw):
         case['f'] = g.fun('f2', 1, sc)
         case['z'] = g.int_(2, sc)
         case['a'], case['b'] = g.int_(2, sc), g.int_(2, sc)
+    elif rel in ('fold-left-seq', 'fold-right-seq'):
+        A, B = ['var', 'a'], ['var', 'b']
+        case['f'] = ['inline', ['a', 'b'], _sf(draw, [['seq', A, B], ['seq', B, A], ['seq', A, B, A],
+                                                     ['seq', ['call', 'count', [A]], B], ['seq', A, ['call', 'count', [B]]]])]
+        case['z'] = g.zero()
     elif rel == 'partial':
         case['f'] = g.fun('f2', 1, sc)
         case['a'], case['b'] = g.int_(2, sc), g.int_(2, sc)
@@ -763,7 +844,8 @@ def history_case(draw):
 # --------------------------------------------------------------------------
 MISUSES = ['dyn-arity-more', 'dyn-arity-less', 'dyn-non-function', 'filter-non-boolean', 'filter-boolean-sequence',
            'for-each-arity', 'fold-left-arity', 'fold-right-arity', 'for-each-pair-arity', 'filter-arity', 'apply-size',
-           'sort-key-arity', 'partial-arity', 'control-ok']
+           'sort-key-arity', 'partial-arity', 'control-ok', 'apply-array-arity', 'apply-map-arity', 'array-call-arity',
+           'map-call-arity', 'array-as-binary-callback']
 
 
 @st.composite
@@ -771,7 +853,8 @@ def misuse_case(draw):
     v = _sf(draw, ['31', '31', '30'])
     g = FGen(draw, v, max_depth=1)
     kind = _sf(draw, MISUSES)
-    if v == '30' and kind in ('apply-size', 'sort-key-arity'):
+    if v == '30' and kind in ('apply-size', 'sort-key-arity', 'apply-array-arity', 'apply-map-arity', 'array-call-arity',
+                              'map-call-arity', 'array-as-binary-callback'):
         kind = 'dyn-arity-more'
     S = g.lit_seq(min_len=0 if draw(_upto(3)) == 0 else 1)
     if kind.endswith('-arity'):
@@ -796,6 +879,11 @@ def misuse_case(draw):
         'sort-key-arity': c('sort', S, ['empty'], f2),
         'partial-arity': ['dyn', f2, [['?']]],
         'control-ok': c('filter', S, p1),
+        'apply-array-arity': c('apply', ['array', [a, b, a]], ['array', _sf(draw, [[a, b], [a, b, a]])]),
+        'apply-map-arity': c('apply', ['mapc', [[['str', 'k'], a]]], ['array', _sf(draw, [[['str', 'k'], ['str', 'k']], [a, b, a]])]),
+        'array-call-arity': ['dyn', ['array', [a, b]], [['int', 1], ['int', 2]]],
+        'map-call-arity': ['dyn', ['mapc', [[['str', 'k'], a]]], [['str', 'k'], ['str', 'j']]],
+        'array-as-binary-callback': c(_sf(draw, ['fold-left', 'fold-right']), T, a, ['array', [a, b]]),
     }[kind]
     return {'v': v, 'kind': kind, 'ast': ast}
 
